@@ -38,6 +38,14 @@
    GETs of manifests are not interleaving points (the gate lets plain reads through): they belong
    to the step before them.
 
+   Bare writers (operation "bare"): callers of CommitHandler::commit itself with a manifest from
+   Manifest::new_from_previous.  No transaction file, no conflict-resolution reload, one attempt: the
+   program is the handler program.  Such a manifest has no attempt identity beyond (writer, version), so the
+   lost-response recovery of the external handler can only recognise its own *staging path*; once somebody
+   else has finalized the commit the writer reports CommitConflict although its manifest is the published
+   one ("bare lost response reported as conflict": accepted, it is what /repo HEAD does on purpose -- the
+   alternative, treating "no name" as equal, lets a loser overwrite a published manifest).
+
    Deviations (as-built behaviour that differs from the intended design; Deviations = {} is the
    intended design):
       "ExtLostTreatedAsConflict"  (repaired in /repo) an error of EXT.put_if_not_exists whose effect WAS
@@ -52,6 +60,9 @@
       "ExtGetErrorDeletesStaging" (as built now) an error of EXT.get / of reading the final manifest in that
                                   branch is treated as "not ours": the staging manifest is deleted.  Together
                                   with a lost response of the put this is the old defect again (double fault)
+      "EmptyTxnIdentityMatches"   (not the code: a seeded weakening) in the recovery branch two manifests that both
+                                  name no transaction file compare equal, so a bare writer that lost the race for
+                                  an already finalized version claims it and overwrites the published manifest
       "DetachedListingPanics"     resolving the latest version by listing panics when a detached
                                   manifest is listed on a V2-named table (fixed in /repo; kept so that
                                   a regression is recognised)
@@ -503,7 +514,10 @@ CExtGet(a, f) ==
   /\ SetA(a, IF f = "fail" /\ "ExtGetErrorDeletesStaging" \notin cfg.dev THEN Done(r, "error")
              ELSE IF f = "ok" /\ mine
              THEN [r EXCEPT !.fin = <<r.target, r.cur>>, !.cont = "commit", !.pc = "f_copy"]
+             \* a bare manifest names no transaction file: it has no attempt identity, the final manifest is
+             \* not even read (deviation "EmptyTxnIdentityMatches": it is read and "no name = no name" counts as ours)
              ELSE IF f = "ok" /\ found /\ IsFinal(p) /\ "ExtGetComparesPathOnly" \notin cfg.dev
+                     /\ (cfg.op[a] # "bare" \/ "EmptyTxnIdentityMatches" \in cfg.dev)
              THEN [r EXCEPT !.pc = IF "ExtStagingHeadHeuristic" \in cfg.dev THEN "c_headst" ELSE "c_headfin"]
              ELSE [r EXCEPT !.pc = "c_delst"])
 
@@ -514,7 +528,10 @@ CExtGet(a, f) ==
 CHeadFinalOwn(a, f) ==
   LET r == ac[a]
       out == HeadOut(FinalP(r.target), f)
-      mineFinal == FinalP(r.target) \in DOMAIN obj /\ obj[FinalP(r.target)] = r.cur IN
+      mineFinal == /\ FinalP(r.target) \in DOMAIN obj
+                   /\ \/ obj[FinalP(r.target)] = r.cur
+                      \/ (cfg.op[a] = "bare" /\ "EmptyTxnIdentityMatches" \in cfg.dev
+                            /\ OpOfContent(obj[FinalP(r.target)]) = "bare") IN
   /\ r.pc = "c_headfin" /\ f \in {"ok", "fail"}
   /\ Call(a, f, "head", "final", r.target, -1, out)
   /\ Same(<<obj, ext, lease, owner, okRet>>)
@@ -604,6 +621,8 @@ Ghost ==
                                       THEN obj'[FinalP(v)] ELSE firstFinal[v]]
   /\ pubOK' = (pubOK /\ \A v \in VisibleIn(obj', ext') \ Visible : v = LatestIn(obj, ext) + 1)
   /\ marks' = marks \cup ({ac'[a].pc : a \in Actors} \cap RarePcs)
+                     \cup (IF last'.op = "ext_get" /\ last'.cls = "final" /\ last'.a \in {1, 2, 4}
+                              /\ ac[last'.a].pc = "c_extget" THEN {"extget_final"} ELSE {})
 
 \* a fresh content token for the manifest built by actor a in its current attempt
 Tok(a) == 10 * a + ac[a].attempt + 2
@@ -681,6 +700,13 @@ StartRec(a, c) ==
   ELSE IF o = "read" /\ c.rver[a] > 0
        THEN [Blank EXCEPT !.pc = IF c.handler = "external" THEN "v_ext" ELSE IF c.v2 THEN "v_final" ELSE "v_alt",
                           !.rvq = c.rver[a], !.cont2 = "read"]
+  \* a bare writer calls CommitHandler::commit directly with a manifest built from version 1
+  \* (Manifest::new_from_previous: version 2, no transaction file): its program is the handler program only
+  ELSE IF o = "bare"
+       THEN [Blank EXCEPT !.readV = 1, !.seen = 1, !.target = 2,
+                          !.pc = CASE c.handler \in {"condput", "unsafe"} -> "c_put"
+                                   [] c.handler \in {"rename", "external"} -> "c_stage"
+                                   [] c.handler = "lock" -> "c_lock"]
   ELSE [Blank EXCEPT !.pc = IF c.handler = "external" THEN "o_ext" ELSE "o_list"]
 
 RModeOp(m) == IF m = 99 THEN "none" ELSE "read"
